@@ -90,6 +90,7 @@ def gen_behaviour(r, profile, geom, bid, cfg, length=None, safe_first=False):
         "restart": {"append": 34, "batch": 8, "read": 12, "bread": 20, "reopen": 14, "mark": 5, "is_clean": 5},
         "marker":  {"append": 30, "mark": 30, "is_clean": 20, "reopen": 20},
         "drain":   {"append": 50, "batch": 10, "read": 10, "bread": 30},
+        "crashw":  {"append": 35, "batch": 25, "read": 15, "bread": 20, "fill": 5},
         "reclaim": {"fill": 45, "append": 5, "read": 12, "bread": 18, "peek": 8, "poll": 8, "reopen": 4},
     }[profile]
     kinds = list(W.keys())
